@@ -72,9 +72,9 @@ func qStr(qs [][3]int) string {
 }
 
 // runTTDec drives Decode from a plain bit list; result in the format of t2_tt_dec.
-func runTTDec(w, h int, bits []int, qs [][3]int) (string, bool) {
+func runTTDec(w, h int, bits []int, qs [][3]int) (string, int) {
 	var res string
-	src := &bitSource{bits: bits}
+	src := &bitSource{bits: bits, zeroPad: true}
 	if p, _ := Safely(func() {
 		tt := t2.NewTagTree(w, h)
 		var vals []int
@@ -88,9 +88,9 @@ func runTTDec(w, h int, bits []int, qs [][3]int) (string, bool) {
 		}
 		res = fmt.Sprintf("ok:%s|%s", Ints(vals), ttLeaves(tt))
 	}); p {
-		return "panic", src.exhausted
+		return "panic", src.pos
 	}
-	return res, src.exhausted
+	return res, src.pos
 }
 
 type ttCase struct {
@@ -130,6 +130,11 @@ func genTTCase(r *Rand, i int) ttCase {
 		if r.Intn(10) == 0 {
 			k.L = r.Range(9, 40)
 		}
+		if i%100 == 10 { // inclusion layers around and above the 999 placeholder
+			k.W, k.H = r.Range(1, 2), r.Range(1, 2)
+			w, h = k.W, k.H
+			k.L = r.Pick(999, 1000, 1001, 1002, 1100)
+		}
 		late := r.Intn(3) == 0
 		for j := 0; j < w*h; j++ {
 			f := r.Range(0, k.L)
@@ -138,6 +143,9 @@ func genTTCase(r *Rand, i int) ttCase {
 			}
 			if r.Intn(4) == 0 {
 				f = 0
+			}
+			if k.L >= 999 && r.Bool() {
+				f = r.Range(996, k.L)
 			}
 			k.First = append(k.First, f)
 		}
@@ -223,7 +231,7 @@ func genTTCase(r *Rand, i int) ttCase {
 
 func suiteTagTree(c *Ctx) {
 	rng := c.Rng.Fork()
-	n := c.N(2500, 50000)
+	n := c.N(2000, 30000)
 	cases := make([]ttCase, n)
 	seeds := make([]uint64, n)
 	for i := range cases {
@@ -242,6 +250,9 @@ func suiteTagTree(c *Ctx) {
 					dist = append(dist, "late_inclusion")
 					break
 				}
+			}
+			if k.L >= 999 {
+				dist = append(dist, "tt.layers_ge_999")
 			}
 		}
 		c.R.Case(key, k.W*k.H >= 2 && len(k.Ops) >= 2, dist...)
@@ -285,20 +296,16 @@ func suiteTagTree(c *Ctx) {
 				}
 			}
 		}
-		// zero padding so that neither side can run out of bits: a query consumes at most
-		// threshold + levels bits
-		pad := 0
-		for _, q := range qs {
-			pad += max(q[2], 0) + 8
+		// the Go side reads zero bits past the end of the list; the model gets the list
+		// padded with zeros to the number of bits Go consumed (its reader then still has the
+		// flush padding and four 00 bytes, so it cannot run out before it disagrees)
+		dimpl, consumed := runTTDec(k.W, k.H, dbits, qs)
+		if consumed > len(dbits) {
+			dbits = append(append([]int{}, dbits...), make([]int, consumed-len(dbits))...)
+			c.R.Count("tt.dec.zero_padded")
 		}
-		dbits = append(append([]int{}, dbits...), make([]int, pad)...)
-		dimpl, exhausted := runTTDec(k.W, k.H, dbits, qs)
 		din := map[string]interface{}{"w": k.W, "h": k.H, "bits": bitsStr(dbits), "queries": qStr(qs)}
-		if exhausted {
-			c.R.Count("tt.dec.pad_exhausted")
-		} else {
-			c.CorrEq("t2:tagtree:dec", "t2:tagtree:dec:"+k.Kind, c.M.Call("t2_tt_dec", fmt.Sprint(k.W), fmt.Sprint(k.H), bitsStr(dbits), qStr(qs)), dimpl, din)
-		}
+		c.CorrEq("t2:tagtree:dec", "t2:tagtree:dec:"+k.Kind, c.M.Call("t2_tt_dec", fmt.Sprint(k.W), fmt.Sprint(k.H), bitsStr(dbits), qStr(qs)), dimpl, din)
 
 		// truncated / random bytes through a real bioReader: ok/err class and values
 		data := noise(r, r.Range(0, 6))
